@@ -269,6 +269,24 @@ def walkParsed (parsed : Outcome (Parser.ParseErr F) (Program F)) (failF : Strin
 
 def handleWalk (src : Str) (failF : String) : String := walkParsed (parseSrc src) failF
 
+/-- `walkshape`: a visitor whose output records the SHAPE of the fold (`d` the default, `x` a leaf,
+    `(a b)` a combine): neither associative nor with a neutral default, so the way the results are
+    combined — from the default, left to right — is visible in the answer. -/
+def shapeVisitor : Visitor F Unit String Nat where
+  dflt := "d"
+  combine a b := "(" ++ a ++ " " ++ b ++ ")"
+  leaf _ _ := pure "x"
+  pre _ := pure ()
+
+def handleWalkShape (src : Str) : String :=
+  match parseSrc src with
+  | .ok prog =>
+    match (Walk.program shapeVisitor prog ()).1 with
+    | .ok out => "ok " ++ out
+    | .error i => "err " ++ toString i
+  | .crash s => "crash " ++ toString (repr s)
+  | _ => "bad"
+
 def errClass (e : ValErr F) : String := "err:" ++ S e.className
 
 def vres (r : VRes F (Val F)) (short : Bool := false) : String :=
@@ -360,6 +378,10 @@ def handle (line : String) : String :=
   | ["fold", f] =>
     match textField f with
     | some src => handleFold src
+    | none => "bad"
+  | ["walkshape", f] =>
+    match textField f with
+    | some src => handleWalkShape src
     | none => "bad"
   | ["walk", f, fail] =>
     match textField f with
